@@ -262,17 +262,20 @@ def oracle_primitive(case):
     n = case['n']
     rows = 1 << n
     if case['primitive'] == 'inputs_tt':
+        # whatever order the rows are in: the n patterns, read row by row, must enumerate every assignment of the n
+        # leaves exactly once (then the pattern of a gate IS its truth table over the leaves), and no pattern may
+        # have a bit outside the 2^n rows
         tts = _generate_inputs_tt(n)
         if len(tts) != n:
             return f'_generate_inputs_tt({n}) has {len(tts)} patterns'
-        for j, pat in enumerate(tts):
-            exp = sum(((i >> j) & 1) << i for i in range(rows))
-            if pat != exp:
-                bad = [i for i in range(max(rows, pat.bit_length())) if (pat >> i) & 1 != (exp >> i) & 1][:3]
-                return (f'_generate_inputs_tt({n})[{j}] is not the truth table of input {j}: rows {bad} differ '
-                        f'(pattern simulation no longer denotes evaluation for cuts with {n} leaves)')
+        if any(p < 0 or p >> rows for p in tts):
+            return f'_generate_inputs_tt({n}) has a pattern with bits outside the 2^{n} rows'
+        seen = {tuple((p >> i) & 1 for p in tts) for i in range(rows)}
+        if len(seen) != rows:
+            return (f'_generate_inputs_tt({n}): the rows enumerate only {len(seen)} of the {rows} assignments of the '
+                    f'leaves (pattern simulation no longer denotes evaluation for cuts with {n} leaves)')
         if _PatternOperations(n).max_pattern != (1 << rows) - 1:
-            return f'max_pattern of size {n} is not 2^(2^{n}) - 1'
+            return f'max_pattern of size {n} is not the all-ones pattern of 2^{n} rows'
         return None
     rng = random.Random(case['seed'] * 1000 + n)
     po = _PatternOperations(n)
